@@ -121,6 +121,54 @@ def main() -> int:
             ck.count()
             if a != b2:
                 ck.known(f["id"], f["what"] + " (replayed: %r -> %s instead of %s)" % (rp["rewritten"], b2, a))
+    # multi-statement scripts (with metadata, session-dependent statements, verbatim repeats, tables re-created with other
+    # columns) in which ONE statement is rewritten and the others are left alone: the rewrite positions of the property are
+    # token boundaries anywhere in the script, not "the same rewrite everywhere"
+    import gen_scripts
+    scr = []
+    for cols1, cols2 in ((["ca", "cb"], ["cc"]), (["ca"], ["ca", "cd"]), (["k", "x"], ["x", "k", "y"])):
+        for mk in ("create table stg as select %s from s.src", "create view stg as select %s from s.src"):
+            for use in ("insert into s.out1 select * from stg", "insert into s.out1 select p.* from stg p", "create table s.o2 as select * from stg"):
+                st = [mk % ", ".join(cols1), use, "drop table stg", mk.replace("s.src", "s.src2") % ", ".join(cols2), use]
+                scr.append({"stmts": st, "metadata": {"s.src": cols1 + ["zz"], "s.src2": cols2}})
+                scr.append({"stmts": st[:2] + st[3:], "metadata": {"zz.other": ["q"]}})
+    for x in gen_scripts.gen_records(r, 25 if quick else 400):
+        st = [t.strip() for t in x["sql"].split(";\n")]
+        if len(st) >= 2:
+            scr.append({"stmts": st + [st[r.randrange(len(st))]], "metadata": x.get("metadata")})
+    part_rw = {
+        "lead-comment": lambda t: "/* c; */ " + t,
+        "trail-line-comment": lambda t: t + " -- c; d\n",
+        "first-gap-newline": lambda t: t.replace(" ", "\n", 1),
+        "first-word-case": lambda t: t.split(" ", 1)[0].swapcase() + " " + t.split(" ", 1)[1] if " " in t else t,
+        "from-gap": lambda t: t.replace(" from ", "\tfrom  ", 1),
+    }
+    plain_recs = [{"sql": ";\n".join(x["stmts"]) + ";", "dialect": "ansi", "metadata": x["metadata"], "config": {}} for x in scr]
+    plain_out = t2tie.summaries(plain_recs)
+    batch, meta = [], []
+    for xi, x in enumerate(scr):
+        for i in range(len(x["stmts"])):
+            for name, f in part_rw.items():
+                if quick and (xi + i + len(name)) % 2:
+                    continue
+                st = list(x["stmts"])
+                st[i] = f(st[i])
+                if st[i] == x["stmts"][i]:
+                    continue
+                batch.append({"sql": ";\n".join(st) + ";", "dialect": "ansi", "metadata": x["metadata"], "config": {}})
+                meta.append((xi, i, name))
+    for (xi, i, name), rec, g in zip(meta, batch, t2tie.summaries(batch)):
+        b = plain_out[xi]
+        ck.count()
+        dist["variants"]["one-statement:" + name] = dist["variants"].get("one-statement:" + name, 0) + 1
+        if b.startswith("ERR:InvalidSyntax") or g.startswith("ERR:InvalidSyntax"):
+            dist["rejected_by_parser"] += 1
+            continue
+        ck.nontriv(("script", name, rec["sql"]))
+        if b != g:
+            spec_failures.append({"suite": "one-statement-rewritten", "rewrite": name, "statement_index": i, "metadata": rec["metadata"],
+                                  "plain_sql": plain_recs[xi]["sql"], "rewritten_sql": rec["sql"], "plain_result": b, "rewritten_result": g,
+                                  "spec": "a comment, line break, blank or letter-case change in one statement of a script changes nothing"})
     # corpus: case and layout rewrites that need no knowledge of the grammar (keywords are not touched)
     recs = [x for x in corpus.load() if x["dialect"] == "ansi" and not x.get("metadata") and not x.get("origin", "").startswith("tpcds")
             and not any(v for v in (x.get("config") or {}).values())]
